@@ -505,14 +505,19 @@ class DiffXReader(object):
                             keep_ends=True)
 
         if indent:
+            if not isinstance(indent, int) or indent < 0:
+                raise DiffXParseError(
+                    'Expected the indent option to be a non-negative '
+                    'integer, not "%s"' % indent,
+                    linenum=self._linenum)
+
             # It's important that we don't assume each line is actually
             # indented correctly. There could be nothing but a newline,
             # or due to some error the indentation on some line may be
             # wrong. Be careful to strip only the spaces, up to the specified
             # indentation level.
-            indent_re = re.compile(br'^ {1,%d}' % indent)
             content = b''.join(
-                indent_re.sub(b'', _line)
+                _line[:indent].lstrip(b' ') + _line[indent:]
                 for _line in lines
             )
 
